@@ -60,18 +60,12 @@ Fixpoint run_writeTag (w16 : Z -> list Z) (sk : list tstmt) (tagType : Z) (name 
   match sk with
   | [] => Some []
   | s :: r =>
+      let emit (bs : list Z) := match run_writeTag w16 r tagType name with None => None | Some rest => Some (bs ++ rest) end in
       match s with
-      | TCheckLenGt c => if (c <? Z.of_nat (length name))%Z then None else run_writeTag w16 r tagType name
-      | _ =>
-          match run_writeTag w16 r tagType name with
-          | None => None
-          | Some rest =>
-              Some (match s with
-                    | TWriteTagByte => [tagType]
-                    | TWriteLen16 => w16 (Z.of_nat (length name))     (* int16(len(bName)): see the tie lemma *)
-                    | _ => name
-                    end ++ rest)
-          end
+      | TCheckLenGt c => if (c <? Z.of_nat (List.length name))%Z then None else run_writeTag w16 r tagType name
+      | TWriteTagByte => emit [tagType]
+      | TWriteLen16 => emit (w16 (Z.of_nat (List.length name)))     (* int16(len(bName)): see the tie lemma *)
+      | TWriteName => emit name
       end
   end.
 
